@@ -147,7 +147,8 @@ class SymSeries(_RowsMixin, SymBase):
         valid = None
         if isinstance(other, SymSeries):
             if self.prov != other.prov:
-                raise Unsupported("elementwise op between series over different rows")
+                a2, b2 = align_rows(self, other)
+                return a2._bin(b2, op, reverse)
             if not same_valid(self.valid, other.valid):
                 valid = self._align_valid(other, op)
             oc = other.cells()
@@ -379,6 +380,20 @@ class SymSeries(_RowsMixin, SymBase):
     def dropna(self, **kw):
         return self._with(valid=[And(v, Not(n)) for v, n in zip(self.valid, self.col.nulls)])
 
+    # ---- dask-only API (reference semantics: partitioning does not exist)
+    def repartition(self, *a, **kw):
+        return self._with()
+
+    def persist(self, **kw):
+        return self._with()
+
+    def shuffle(self, *a, ignore_index=False, **kw):
+        return SymSeries(self.name, self.col, self.valid, _undef_if(self.index_, ignore_index), self.prov, "unspecified")
+
+    @property
+    def loc(self):
+        return _Loc(self)
+
     # ---- reductions
     def _red(self, name, **kw):
         return SymScalar(_reduce(name, self.cells(), self.valid, **kw))
@@ -458,11 +473,13 @@ class SymSeries(_RowsMixin, SymBase):
     def drop_duplicates(self, keep="first", ignore_index=False, **kw):
         if keep != "first":
             raise Unsupported("drop_duplicates keep")
-        first = _first_occurrence([[c] for c in self.cells()], self.valid, self.order)
+        first = _first_occurrence([[c] for c in self.cells()], self.valid, None if isinstance(self.order, str) else self.order)
         return self._with(valid=first, index=_undef_if(self.index_, ignore_index))
 
-    def unique(self):
-        raise Unsupported("Series.unique (ndarray result)")
+    def unique(self, **kw):
+        # dask semantics: a Series of the distinct values (index unspecified)
+        out = self.drop_duplicates()
+        return out._with(index=Idx.undefined(out.nslots))
 
     # ---- order dependent
     def _cum(self, kind, skipna=True):
@@ -508,6 +525,9 @@ class SymSeries(_RowsMixin, SymBase):
     def sort_values(self, ascending=True, **kw):
         return self.to_frame("_v").sort_values("_v", ascending=ascending)["_v"]._with(name=self.name)
 
+    def sort_index(self, ascending=True, **kw):
+        return self.to_frame("_v").sort_index(ascending=ascending)["_v"]._with(name=self.name)
+
     def value_counts(self, sort=None, ascending=False, dropna=True, normalize=False, **kw):
         if normalize:
             raise Unsupported("value_counts(normalize)")
@@ -530,6 +550,23 @@ class SymSeries(_RowsMixin, SymBase):
 
 _install_binops(SymSeries)
 _install_binops(SymScalar)
+
+
+class _Loc:
+    """label based row selection `x.loc[a:b]`, `x.loc[[labels]]`, `x.loc[a:b, cols]`"""
+
+    def __init__(self, obj):
+        self.obj = obj
+
+    def __getitem__(self, key):
+        from .models import m_loc
+
+        cindexer = None
+        if isinstance(key, tuple):
+            key, cindexer = key
+        if isinstance(key, (int,)) and not isinstance(key, bool):
+            key = slice(key, key)
+        return m_loc(None, self.obj, key, cindexer)
 
 
 class _ILoc:
@@ -1063,7 +1100,10 @@ class SymFrame(_RowsMixin, SymBase):
                 # pandas aligns on the index: against a frame without rows every row of the result is NaN
                 if decide(count(other.valid) == 0):
                     nullcol = Col.from_cells([Cell(z3.IntVal(0), T, "f")] * self.nslots)
-                    return self._with(cols=[(k, nullcol) for k, _ in self.cols])
+                    return SymFrame([(k, nullcol) for k, _ in self.cols], self.valid, self.index_, [(p_, None) for p_ in self.prov], self.order)
+            if other.prov != self.prov and other.labels == self.labels and len(set(self.labels)) == len(self.labels):
+                a2, b2 = align_rows(self, other)
+                return a2._bin(b2, op, reverse)
             if other.labels != self.labels or other.prov != self.prov or not same_valid(self.valid, other.valid):
                 raise Unsupported("frame op frame with different columns / alignment")
             cols = []
@@ -1095,6 +1135,20 @@ class SymFrame(_RowsMixin, SymBase):
         raise Unsupported("frame where")
 
     mask = where
+
+    # ---- dask-only API (reference semantics: partitioning does not exist)
+    def repartition(self, *a, **kw):
+        return self._with()
+
+    def persist(self, **kw):
+        return self._with()
+
+    def shuffle(self, *a, ignore_index=False, **kw):
+        return SymFrame(self.cols, self.valid, _undef_if(self.index_, ignore_index), self.prov, "unspecified")
+
+    @property
+    def loc(self):
+        return _Loc(self)
 
     # ---- selection
     def head(self, n=5, npartitions=1, compute=False):
@@ -1129,7 +1183,7 @@ class SymFrame(_RowsMixin, SymBase):
         labels = self.labels if subset is None else ([subset] if not isinstance(subset, (list, tuple)) else list(subset))
         keycols = [self.col(k) for k in labels]
         keys = [[c.cell(i) for c in keycols] for i in range(self.nslots)]
-        first = _first_occurrence(keys, self.valid, self.order)
+        first = _first_occurrence(keys, self.valid, None if isinstance(self.order, str) else self.order)
         return self._with(valid=first, index=_undef_if(self.index_, ignore_index))
 
     # ---- reductions
@@ -1189,7 +1243,11 @@ class SymFrame(_RowsMixin, SymBase):
             cols = [(k, c) for k, c in self.cols if k != keys] if drop else list(self.cols)
         if col.nullable:
             raise Unsupported("set_index on nullable column")
-        return SymFrame(cols, self.valid, Idx([c.num() for c in col.cells()], name, True), self.prov, self.order)
+        out = SymFrame(cols, self.valid, Idx([c.num() for c in col.cells()], name, True), self.prov, self.order)
+        if "divisions" in kw or "npartitions" in kw or kw.get("sorted") is not None or kw.get("sort") is True:
+            # dask's set_index returns the frame sorted by the new index (pandas' set_index does not)
+            out = SymFrame(out.cols, out.valid, out.index_, out.prov, None if isinstance(out.order, str) else out.order).sort_index()
+        return out
 
     def squeeze(self, axis=None):
         if len(self.cols) == 1 and axis is None:
@@ -1285,6 +1343,52 @@ _install_binops(SymFrame)
 core.SymSeries, core.SymFrame, core.SymLabelSeries, core.SymIndex = SymSeries, SymFrame, SymLabelSeries, SymIndex
 
 
+# ---------------------------------------------------------------------------------------------- index alignment
+
+def align_rows(a, b):
+    """pandas' outer alignment of two series / frames on their index labels (unique labels on each side; a path with
+    duplicate labels raises ModelledMisalignment).  Returns both operands over the same slots, NaN where missing."""
+    ia, ib = a.index_, b.index_
+    if not (ia.defined and ib.defined) or ia.labels or ib.labels:
+        raise Unsupported("alignment on an undefined index")
+    na, nb = a.nslots, b.nslots
+    dup = []
+    for x, idx in ((a, ia), (b, ib)):
+        for i in range(x.nslots):
+            for j in range(i + 1, x.nslots):
+                same = z3.simplify(I(idx.vals[i]) == I(idx.vals[j]))
+                if not is_f(same):
+                    dup.append(And(x.valid[i], x.valid[j], same))
+    if dup and decide(Or(*dup)):
+        raise ModelledMisalignment("alignment of operands with duplicate index labels")
+    match = [[And(a.valid[i], b.valid[j], I(ia.vals[i]) == I(ib.vals[j])) for j in range(nb)] for i in range(na)]
+    rows = [(match[i][j], i, j) for i in range(na) for j in range(nb)]
+    rows += [(And(a.valid[i], Not(Or(*match[i]))), i, None) for i in range(na)]
+    rows += [(And(b.valid[j], Not(Or(*[match[i][j] for i in range(na)]))), None, j) for j in range(nb)]
+    valid = [v for v, _, _ in rows]
+    labels = [I(ia.vals[i]) if i is not None else I(ib.vals[j]) for _, i, j in rows]
+    index = Idx(labels, ia.name if ia.name == ib.name else None, True)
+    prov = [(a.prov[i] if i is not None else None, b.prov[j] if j is not None else None) for _, i, j in rows]
+    order = [(l,) for l in labels]  # the union index of unequal indexes is sorted
+
+    def side(x, pick):
+        def col(c):
+            cells = []
+            for r in rows:
+                k = r[pick]
+                cells.append(c.cell(k) if k is not None else Cell(z3.IntVal(0) if c.kind != "b" else F, T, "f" if c.kind != "b" else "b"))
+            kinds = {cc.kind for cc in cells}
+            if "b" in kinds and len(kinds) > 1:
+                raise Unsupported("bool column made nullable by alignment")
+            return Col.from_cells(cells)
+
+        if isinstance(x, SymSeries):
+            return SymSeries(x.name, col(x.col), valid, index, prov, order)
+        return SymFrame([(k, col(c)) for k, c in x.cols], valid, index, prov, order)
+
+    return side(a, 1), side(b, 2)
+
+
 # ---------------------------------------------------------------------------------------------- concat
 
 def _from_empty_pandas(o):
@@ -1300,13 +1404,29 @@ def _from_empty_pandas(o):
     return o
 
 
+def _concat_columns(objs, join):
+    """axis=1 concat of objects over the same rows (identical provenance): the columns side by side"""
+    first = objs[0]
+    if not all(isinstance(o, (SymFrame, SymSeries)) for o in objs):
+        raise Unsupported("concat axis=1 of non frames")
+    if not all(o.prov == first.prov and same_valid(o.valid, first.valid) for o in objs):
+        raise Unsupported("concat axis=1 of differently indexed inputs")
+    cols = []
+    for k, o in enumerate(objs):
+        if isinstance(o, SymSeries):
+            cols.append((o.name if o.name is not None else k, o.col))
+        else:
+            cols += list(o.cols)
+    return SymFrame(cols, first.valid, first.index_, first.prov, first.order)
+
+
 def sym_concat(objs, ignore_index=False, axis=0, join="outer", **kw):
     """model of pandas.concat / dask _concat / methods.concat for symbolic pieces (axis 0)"""
     objs = [_from_empty_pandas(o) for o in objs if o is not None]
     if not objs:
         raise Unsupported("concat of nothing")
     if axis not in (0, "index"):
-        raise Unsupported("concat axis=1")
+        return _concat_columns(objs, join)
     first = objs[0]
     if all(isinstance(o, SymScalar) or not isinstance(o, SymBase) for o in objs):
         cells = [lit_cell(o) for o in objs]
